@@ -276,8 +276,29 @@ def judgeCase (outerB cwd : Bytes) (id : String) (i : Inp) (code : String) (chan
                 else if code = "InternalError" then "fs-error" else "notfound"
             agree id (pre ++ cls)
 
+/-- `FileSystem::new` on a root that holds planted files (`keys` = their names relative to the root): the start-up clean-up
+    (`clean_old_tmp_files`) removes the root-level regular files named `.tmp.*.internal.part` and NOTHING else (spec: anything
+    else removed or changed is a violation; model: exactly the planted names of that shape are removed) -/
+def judgeNew (id : String) (planted : List Bytes) (changes : List Chg) : String :=
+  let pre := sb ".tmp."
+  let suf := sb ".internal.part"
+  let isTmp (name : Bytes) : Bool := !(name.contains 47) && pre.isPrefixOf name && suf.isSuffixOf name
+  let nameOf (rel : Bytes) : Option Bytes := if (sb "root/").isPrefixOf rel then some (rel.drop 5) else none
+  let bad := changes.find? fun c => !(c.kind = '-' && !c.isDir && ((nameOf c.rel).map isTmp).getD false)
+  match bad with
+  | some c => specfail id "startup-cleanup-touched-other" s!"{c.kind}{if c.isDir then 'd' else 'f'} {hexEncode c.rel}"
+  | none =>
+    let removed := changes.filterMap fun c => nameOf c.rel
+    let expected := planted.filter isTmp
+    if expected.all (removed.contains ·) && removed.all (expected.contains ·) then agree id "startup-cleanup"
+    else disagree id s!"removes {expected.length} planted temporary files" s!"removed {removed.length}"
+
 def judge (fs : List String) : String :=
   match fs with
+  | [_comp, id, "fs_new", _, _, _, _, _, _, keys, _, _, "|", _code, changed, _revealed, _upid, _outerH, _cwdH] =>
+    match listHexDecode keys, parseList parseChange changed with
+    | some ks, some chg => judgeNew id ks chg
+    | _, _ => badline id
   | [_comp, id, op, bucket, key, sbk, sk, uid, part, keys, parts, flags, "|", code, changed, revealed, upid,
       outerH, cwdH] =>
     let outerB := (hexDecode outerH).getD []
